@@ -230,8 +230,56 @@ def kcls(k):
     return int(k) + 1
 
 
-def key_callable(name):
+class _CallableObject:
+    """an instance with __call__ (callable, but neither a function nor a class)"""
+
+    def __init__(self, f):
+        self._f = f
+
+    def __call__(self, x):
+        return self._f(x)
+
+    def method(self, x):
+        return self._f(x)
+
+
+def as_callable_kind(f, kc, intvalued=False):
+    """round 3: the same function as another KIND of callable - every one satisfies callable():
+    'lambda' a plain function, 'partial' a functools.partial, 'object' an instance with __call__,
+    'method' a bound method, 'class' a class (an int subclass whose constructor computes the value; only for
+    int / bool valued functions, otherwise like 'object')"""
+    if kc in (None, 'lambda') or not callable(f):
+        return f
+    if kc == 'partial':
+        import functools
+        return functools.partial(lambda g, x: g(x), f)
+    if kc == 'object' or (kc == 'class' and not intvalued):
+        return _CallableObject(f)
+    if kc == 'method':
+        return _CallableObject(f).method
+    if kc == 'class':
+        return type('_KeyClass', (_IntKey,), {'_f': staticmethod(f)})
+    raise ValueError(kc)
+
+
+class _IntKey(int):
+    """calling the class computes `_f(x)`; the instance is that int (== and hash of the int)"""
+    _f = None
+
+    def __new__(cls, x):
+        return int.__new__(cls, cls._f(x))
+
+
+CALLABLE_KINDS = ('lambda', 'partial', 'object', 'method', 'class')
+
+
+def key_callable(name, kc=None):
     """the Python `key` argument for a key token (callable, attribute name, or None)"""
+    return as_callable_kind(_key_callable(name), kc,
+                            intvalued=name in ('bool', 'const') or name.startswith(('mod', 'div')))
+
+
+def _key_callable(name):
     if name == 'id':
         return None
     if name.startswith('mod'):
@@ -550,6 +598,8 @@ class C09(Property):
                     for ms in (None, 0, 1, 2):
                         i += 1
                         case = {'op': 'split', 'kind': kinds[i % 5], 'xs': list(xs), 'sep': list(sep), 'ms': ms}
+                        if sep[0] == 'c':
+                            case['kc'] = CALLABLE_KINDS[i % 5]
                         if ms is not None:
                             a = (None, 'f', 'h', 'b', None, 'g', None)[i % 7]
                             if a:
@@ -651,6 +701,15 @@ class C09(Property):
                 if 0 not in xs:
                     keys += ['mod2', 'div2']
                 for key in keys:
+                    if key in ('bool', 'const', 'mod2', 'div2'):
+                        # round 3: the key as every kind of callable (function, partial, __call__ object, bound method,
+                        # builtin-based)
+                        kc = CALLABLE_KINDS[i % 5]
+                        yield {'op': 'unique', 'kind': kind, 'xs': xs, 'key': key, 'kc': kc}
+                        yield {'op': 'redundant', 'kind': kind, 'xs': xs, 'key': key, 'groups': bool(i % 2), 'kc': kc}
+                        yield {'op': 'bucketize', 'kind': kind, 'xs': xs, 'key': key, 'vt': ('id', 'sq')[0 not in xs and i % 2],
+                               'kf': (None, 1)[i % 2], 'kc': kc}
+                        yield {'op': 'partition', 'kind': kind, 'xs': xs, 'key': key, 'kc': kc}
                     yield dict({'op': 'unique', 'kind': kind, 'xs': xs, 'key': key}, **tw)
                     yield dict({'op': 'redundant', 'kind': kind, 'xs': xs, 'key': key, 'groups': False}, **tw)
                     yield {'op': 'redundant', 'kind': kind, 'xs': xs, 'key': key, 'groups': False, 'dflt': True}
@@ -912,8 +971,9 @@ class C09(Property):
                 key = rng.choice(KEYS_NUM)
                 none_ok = key in ('id', 'const', 'bool', 'real', 'imag', 'den', 'nope')
                 xs = self.random_items(rng, n, ncl, none_ok=none_ok)
+            kcx = {'kc': rng.choice(CALLABLE_KINDS)} if rng.random() < 0.3 else {}
             if op == 'unique':
-                return {'op': op, 'kind': kind, 'xs': xs, 'key': key}
+                return dict({'op': op, 'kind': kind, 'xs': xs, 'key': key}, **kcx)
             if op == 'redundant':
                 g = rng.random() < 0.5
                 return dict({'op': op, 'kind': kind, 'xs': xs, 'key': key, 'groups': g},
@@ -1090,7 +1150,7 @@ class C09(Property):
                 a = (sepobj,)
         else:
             classes = {cls(c) for c in sep[1]}
-            a = (lambda x: (0 if x is None else int(x) + 1) in classes,)
+            a = (as_callable_kind(lambda x: (0 if x is None else int(x) + 1) in classes, case.get('kc'), True),)
         if case['ms'] is not None:
             a = a + (pobj(case, 'ms'),)
         elif dflt and sep[0] == 'n':
@@ -1115,7 +1175,7 @@ class C09(Property):
         if op in ('lstrip', 'rstrip', 'strip'):
             return getattr(iu, op + '_iter')(src, dec(case['v'], kind if kind == 'str' else 'list'))
         if op == 'unique':
-            k = key_callable(case['key'])
+            k = key_callable(case['key'], case.get('kc'))
             return iu.unique_iter(src, *(() if k is None else (k,)))
         raise ValueError(op)
 
@@ -1199,12 +1259,12 @@ class C09(Property):
             r = f(src) if (case['v'] == 0 and len(case['xs']) % 2) else f(src, v)
             return encl(list(r))
         if op == 'unique':
-            k = key_callable(case['key'])
+            k = key_callable(case['key'], case.get('kc'))
             a = () if k is None and len(case['xs']) % 2 else (k,)
             r = list(iu.unique_iter(src, *a)) if it else iu.unique(src, *a)
             return encl(r)
         if op == 'redundant':
-            k = key_callable(case['key'])
+            k = key_callable(case['key'], case.get('kc'))
             if dflt and k is None and not case['groups']:
                 r = iu.redundant(src)            # both optional arguments left at their defaults
             elif dflt and not case['groups']:
@@ -1214,19 +1274,19 @@ class C09(Property):
             return [encl(g) for g in r] if case['groups'] else encl(r)
         if op == 'bucketize':
             key = case['key']
-            k = [dec(c) for c in key[1]] if not isinstance(key, str) else key_callable(key)
+            k = [dec(c) for c in key[1]] if not isinstance(key, str) else key_callable(key, case.get('kc'))
             kw = {}
             if dflt and key == 'bool':
                 pass                      # key left at its default (bool)
             elif k is not None:
                 kw['key'] = k
             else:
-                kw['key'] = lambda x: x
+                kw['key'] = as_callable_kind(lambda x: x, case.get('kc'))
             if case['vt'] == 'sq':
-                kw['value_transform'] = lambda x: x * x
+                kw['value_transform'] = as_callable_kind(lambda x: x * x, case.get('kc'))
             if case['kf'] is not None:
                 kfc = case['kf']
-                kw['key_filter'] = lambda kk: kcls(kk) != kfc
+                kw['key_filter'] = as_callable_kind(lambda kk: kcls(kk) != kfc, case.get('kc'))
             r = iu.bucketize(src, **kw)
             if type(r) is not dict:
                 raise BadValue('bucketize returned %s' % type(r).__name__)
@@ -1234,11 +1294,11 @@ class C09(Property):
                 raise BadValue('the key list was modified by the call')
             return [[kcls(kk), encl(vs)] for kk, vs in r.items()]
         if op == 'partition':
-            k = key_callable(case['key'])
+            k = key_callable(case['key'], case.get('kc'))
             if dflt and case['key'] == 'bool':
                 r = iu.partition(src)
             else:
-                r = iu.partition(src, (lambda x: x) if k is None else k)
+                r = iu.partition(src, as_callable_kind(lambda x: x, case.get('kc')) if k is None else k)
             return [encl(r[0]), encl(r[1])]
         raise ValueError(op)
 
@@ -1525,6 +1585,8 @@ class C09(Property):
 
     # ------------------------------------------------------------------ shrinking
     def shrink(self, case):
+        if case.get('kc'):
+            yield {k: v for k, v in case.items() if k != 'kc'}
         if case.get('sc') not in (None, 'list'):
             yield dict(case, sc='list')
         for f in ('twice', 'dflt', 'pa'):
